@@ -1,5 +1,6 @@
 """Confirm sub-agent mutants in a scratch worktree and file them under /verif/seeded/.
-usage: confirm_mutants.py <PID> [<PID> ...]   (reads /tmp/mut/out_<PID>/mutant{k}.diff, demo{k}.py, meta{k}.json)"""
+usage: confirm_mutants.py [--round2] <PID> [<PID> ...]
+   (reads /tmp/mut/out_<PID>/mutant{k}.diff, demo{k}.py, meta{k}.json; with --round2 reads /tmp/mut2/ and files them as _m3, _m4)"""
 import json
 import shutil
 import subprocess
@@ -15,8 +16,11 @@ def sh(cmd, cwd=None, timeout=1800):
 
 
 def main():
-    for pid in sys.argv[1:]:
-        out = Path(f"/tmp/mut/out_{pid}")
+    args = sys.argv[1:]
+    round2 = "--round2" in args
+    args = [a for a in args if a != "--round2"]
+    for pid in args:
+        out = Path(f"/tmp/mut2/out_{pid}" if round2 else f"/tmp/mut/out_{pid}")
         for k in (1, 2, 3):
             diff = out / f"mutant{k}.diff"
             if not diff.exists():
@@ -35,7 +39,7 @@ def main():
                                  demo_mutant_exit_confirmed=rc_mut, suite_tail_with_mutant=t_out.strip().splitlines()[-2:],
                                  what_i_ran=[f"git worktree add {wt} HEAD", f"demo on clean -> {rc_clean}", "git apply patch.diff",
                                              f"demo on mutant -> {rc_mut}", "pytest full suite (3 baseline-failing tests deselected)"]))
-                dst = Path(f"/verif/seeded/{pid}_m{k}")
+                dst = Path(f"/verif/seeded/{pid}_m{k + 2 if round2 else k}")
                 dst.mkdir(parents=True, exist_ok=True)
                 shutil.copy(diff, dst / "patch.diff")
                 shutil.copy(out / f"demo{k}.py", dst / "demo.py")
